@@ -103,7 +103,7 @@ def read_python_fstring(bodies: Sequence[Tuple[str, str]]) -> List[Units]:
         try:
             toks = [
                 t
-                for t in tokenize.tokenize(io.BytesIO(src.encode("utf-8")).readline)
+                for t in tokenize.tokenize(io.BytesIO(src.encode("utf-8")).readline)  # noqa
                 if t.type not in (tokenize.ENCODING, tokenize.NEWLINE, tokenize.NL, tokenize.ENDMARKER)
             ]
         except BaseException:
